@@ -1,29 +1,571 @@
-// Simulated kernel (clock, descriptors, VM, IPC namespace, network). Grows with the harnesses.
+// Simulated kernel, part 1: message sink, clock, processes, descriptors, VM, POSIX semaphores and shm name space.
+// Every simulated system call is atomic, is a scheduling point, may be preceded by a fault decision and
+// leaves errno exactly as Linux would.
 #include "sim.h"
 #include "core.h"
+#include "kernel.h"
+#include "kernel_int.h"
+#include <errno.h>
+#include <fcntl.h>
+#include <semaphore.h>
 #include <stdarg.h>
 #include <stdio.h>
+#include <stdlib.h>
 #include <string.h>
+#include <sys/mman.h>
+#include <sys/stat.h>
+#include <sys/time.h>
+#include <time.h>
+#include <unistd.h>
+#include <limits.h>
+#include <algorithm>
+
+#ifdef SIM_ASAN
+extern "C" {
+void __asan_poison_memory_region(void const volatile *addr, size_t size);
+void __asan_unpoison_memory_region(void const volatile *addr, size_t size);
+}
+#endif
 
 using namespace sim;
 
 namespace sim {
-uint64_t g_msg_errors = 0, g_msg_warnings = 0;
+namespace kern {
+
+const char *call_names[SC_COUNT] = {"sem_open", "sem_close", "sem_unlink", "sem_wait", "sem_post", "shm_open", "shm_unlink", "ftruncate", "fstat",
+                                    "mmap", "munmap", "close", "nanosleep", "socket", "bind", "listen", "accept", "connect", "send", "sendto", "recv",
+                                    "recvfrom", "poll", "shutdown", "getsockopt", "setsockopt", "getsockname", "getpeername", "fcntl", "open"};
+
+K *k = nullptr;
+
+void run_begin() {
+  delete k;
+  k = new K();
+  hb::canon = canon_addr;
 }
 
+static void release_mapping(Mapping &m);
+
+void run_end() {
+  if (!k) return;
+  for (auto &m : k->maps) release_mapping(m);
+  k->maps.clear();
+  for (auto *o : k->shm_objs) { if (o->memfd >= 0) close(o->memfd); delete o; }
+  for (auto *o : k->sem_objs) delete o;
+  for (auto &pr : k->procs) for (auto &e : pr.second.sems) free(e.second.handle);
+  net_run_end();
+  delete k;
+  k = nullptr;
+  hb::canon = nullptr;
+}
+
+Proc &proc_of(int p) { return k->procs[p]; }
+
+// ---------------------------------------------------------------- fault plans
+void plan_eintr(int call, int kth) { k->eintr_plan.insert({call, kth}); }
+void plan_fail(int call, int kth, int err) { k->fail_plan[{call, kth}] = err; }
+void plan_kill(int proc, int kth, bool after) { k->kill_proc = proc; k->kill_k = kth; k->kill_after = after; }
+int calls_made(int call) { return k->calls[call]; }
+int ipc_calls_of(int proc) { return proc_of(proc).ipc_calls; }
+bool proc_dead(int proc) { return proc_of(proc).dead; }
+int eintr_fired() { return k->eintr_fired; }
+int bad_closes() { return k->bad_closes; }
+uint64_t closes_total() { return k->closes; }
+int sigpipe_deliveries() { return k->sigpipes; }
+bool sigpipe_ignored(int proc) { return proc_of(proc).sigpipe_ignored; }
+uint64_t msg_errors() { return k->msg_errors; }
+uint64_t msg_warnings() { return k->msg_warnings; }
+int syscalls_in_bracket() { Task *t = cur(); return t ? (int)(t->syscalls - t->api_sys_base) : 0; }
+
+// called at entry of every simulated system call: scheduling point + bookkeeping. Returns invocation index.
+int sc_enter(int call) {
+  yield_point();
+  Task *t = cur();
+  int n = ++k->calls[call];
+  if (t) { t->syscalls++; ev("sys", call, n); }
+  return n;
+}
+bool want_eintr(int call, int n) {
+  if (k->eintr_plan.count({call, n})) { k->eintr_fired++; fired(ST_EINTR); probe("eintr.planned"); return true; }
+  if (cfg().p[ST_EINTR] > 0 && k->eintr_budget > 0 && flip(ST_EINTR, cfg().p[ST_EINTR])) { k->eintr_budget--; k->eintr_fired++; return true; }
+  return false;
+}
+int want_fail(int call, int n) {
+  auto it = k->fail_plan.find({call, n});
+  if (it != k->fail_plan.end()) { fired(ST_SYSCALL); return it->second; }
+  return 0;
+}
+
+// ---------------------------------------------------------------- processes
+static void kill_process(int p) {
+  Proc &P = proc_of(p);
+  if (P.dead) return;
+  P.dead = true;
+  ev("kill_process", p);
+  probe("kill.process_killed");
+  fired(ST_KILL);
+  Task *me = cur();
+  for (int i = 0; i < ntasks(); i++) { Task *t = task(i); if (t->proc == p && t != me) kill_task(t); }
+  // only durable state survives: names, semaphore counters, segment contents
+  for (auto &e : P.fds) fd_release(e.second);
+  P.fds.clear();
+  for (auto it = k->maps.begin(); it != k->maps.end();) { if (it->proc == p) { release_mapping(*it); it = k->maps.erase(it); } else ++it; }
+  for (auto &e : P.sems) { e.first->open_refs--; free(e.second.handle); }
+  P.sems.clear();
+  alloc::reclaim_process(p);
+  if (me && me->proc == p) die_current();
+}
+
+static void ipc_enter() {
+  Task *t = cur(); if (!t) return;
+  Proc &P = proc_of(t->proc);
+  int n = ++P.ipc_calls;
+  if (k->kill_proc == t->proc && !k->kill_after && k->kill_k == n) kill_process(t->proc);
+  if (P.killable && !k->killed_one && cfg().p[ST_KILL] > 0 && flip(ST_KILL, cfg().p[ST_KILL])) { k->killed_one = true; kill_process(t->proc); }
+}
+static void ipc_exit() {
+  Task *t = cur(); if (!t) return;
+  Proc &P = proc_of(t->proc);
+  if (k->kill_proc == t->proc && k->kill_after && k->kill_k == P.ipc_calls) kill_process(t->proc);
+  if (P.killable && !k->killed_one && cfg().p[ST_KILL] > 0 && flip(ST_KILL, cfg().p[ST_KILL])) { k->killed_one = true; kill_process(t->proc); }
+}
+void set_killable(int proc, bool v) { proc_of(proc).killable = v; }
+
+// ---------------------------------------------------------------- descriptors
+int fd_alloc(Proc &P, FdEnt e) {
+  int fd = 3;
+  while (P.fds.count(fd)) fd++;
+  Task *t = cur();
+  e.owner_task = t ? t->id : -1;
+  e.api = t ? t->api : nullptr;
+  e.open_seq = now_seq();
+  P.fds[fd] = e;
+  k->opens++;
+  return fd;
+}
+FdEnt *fd_get(int fd) {
+  Task *t = cur(); if (!t) return nullptr;
+  Proc &P = proc_of(t->proc);
+  auto it = P.fds.find(fd);
+  return it == P.fds.end() ? nullptr : &it->second;
+}
+void fd_release(FdEnt &e) {
+  if (e.kind == FD_SHM && e.shm) e.shm->open_fds--;
+  if (e.kind == FD_SOCK && e.sock) sock_release(e.sock);
+}
+int fd_count(int proc) { return (int)proc_of(proc).fds.size(); }
+std::string fd_desc(int proc) {
+  std::string s;
+  for (auto &e : proc_of(proc).fds) { char b[96]; snprintf(b, sizeof b, "[fd %d kind %d by %s] ", e.first, e.second.kind, e.second.api ? e.second.api : "?"); s += b; }
+  return s;
+}
+bool fd_cloexec(int proc, int fd) { auto &f = proc_of(proc).fds; auto it = f.find(fd); return it != f.end() && it->second.cloexec; }
+
+// ---------------------------------------------------------------- VM
+uintptr_t canon_addr(uintptr_t a) {
+  if (!k) return a;
+  for (auto &m : k->maps) if (m.shm && a >= m.addr && a < m.addr + m.len) return (1ULL << 62) | ((uintptr_t)m.shm->id << 40) | (a - m.addr);
+  return a;
+}
+static void release_mapping(Mapping &m) {
+#ifdef SIM_ASAN
+  __asan_unpoison_memory_region((void *)m.reserve_base, m.reserve_len);
+#endif
+  munmap((void *)m.reserve_base, m.reserve_len);
+  if (m.shm) m.shm->maps--;
+}
+size_t mapped_bytes(int proc) { size_t n = 0; for (auto &m : k->maps) if (m.proc == proc) n += m.len; return n; }
+int mapping_count(int proc) { int n = 0; for (auto &m : k->maps) if (m.proc == proc) n++; return n; }
+std::string mapping_desc(int proc) {
+  std::string s;
+  for (auto &m : k->maps) if (m.proc == proc) { char b[96]; snprintf(b, sizeof b, "[%zu bytes of %s by %s] ", m.len, m.shm ? "shm" : "anon", m.api ? m.api : "?"); s += b; }
+  return s;
+}
+
+// ---------------------------------------------------------------- IPC queries
+int last_sem_obj() { Task *t = cur(); return t ? k->last_sem[t->id] : -1; }
+int last_shm_obj() { Task *t = cur(); return t ? k->last_shm[t->id] : -1; }
+const char *last_sem_name() { Task *t = cur(); return t ? k->last_sem_name[t->id].c_str() : ""; }
+const char *last_shm_name() { Task *t = cur(); return t ? k->last_shm_name[t->id].c_str() : ""; }
+int sem_value(int obj) { return obj >= 0 && obj < (int)k->sem_objs.size() ? k->sem_objs[obj]->value : -1; }
+int sem_open_refs(int obj) { return obj >= 0 && obj < (int)k->sem_objs.size() ? k->sem_objs[obj]->open_refs : 0; }
+bool sem_name_bound(const char *n) { return k->sem_names.count(n) != 0; }
+int sem_obj_of_name(const char *n) { auto it = k->sem_names.find(n); return it == k->sem_names.end() ? -1 : it->second->id; }
+bool shm_name_bound(const char *n) { return k->shm_names.count(n) != 0; }
+int shm_obj_of_name(const char *n) { auto it = k->shm_names.find(n); return it == k->shm_names.end() ? -1 : it->second->id; }
+size_t shm_size(int obj) { return obj >= 0 && obj < (int)k->shm_objs.size() ? k->shm_objs[obj]->size : 0; }
+std::vector<std::string> names_bound() {
+  std::vector<std::string> v;
+  for (auto &e : k->sem_names) v.push_back("sem:" + e.first);
+  for (auto &e : k->shm_names) v.push_back("shm:" + e.first);
+  return v;
+}
+int sem_waiters(int obj) {
+  int n = 0;
+  for (int i = 0; i < ntasks(); i++) { Task *t = task(i); if (t->state == T_BLOCKED && t->bkind == B_SEM && t->bobj == obj) n++; }
+  return n;
+}
+
+}  // namespace kern
+}  // namespace sim
+
+using namespace sim::kern;
+
 extern "C" {
-// P_ERROR / P_WARNING / P_DEBUG sink: counted, never printed
+
+// ---------------------------------------------------------------- message sink (P_ERROR / P_WARNING / P_DEBUG)
 int simk_printf(const char *fmt, ...) {
-  if (R) {
+  if (R && k) {
     va_list ap; va_start(ap, fmt);
     const char *msg = "";
     if (strstr(fmt, "%s")) msg = va_arg(ap, const char *);
     va_end(ap);
-    if (strstr(fmt, "Error")) { g_msg_errors++; probe("msg.error"); }
-    else if (strstr(fmt, "Warning")) { g_msg_warnings++; probe("msg.warning"); }
+    if (strstr(fmt, "Error")) { k->msg_errors++; probe("msg.error"); }
+    else if (strstr(fmt, "Warning")) { k->msg_warnings++; probe("msg.warning"); }
     if (R->trace) { char b[200]; snprintf(b, sizeof b, "lib-msg: %.150s", msg ? msg : ""); R->trace_lines.push_back(b); }
   }
   return 0;
 }
 int simk_puts(const char *s) { (void)s; return 0; }
+
+// ---------------------------------------------------------------- clock
+int simk_clock_gettime(clockid_t, struct timespec *ts) {
+  uint64_t n = now_ns();
+  ts->tv_sec = (time_t)(n / 1000000000ULL); ts->tv_nsec = (long)(n % 1000000000ULL);
+  return 0;
 }
+int simk_gettimeofday(struct timeval *tv, void *) {
+  uint64_t n = now_ns();
+  tv->tv_sec = (time_t)(n / 1000000000ULL); tv->tv_usec = (suseconds_t)((n % 1000000000ULL) / 1000);
+  return 0;
+}
+// returns 0 when the deadline was reached, EINTR when a (simulated) signal interrupted the wait
+static int sleep_interruptible(int call, int n, uint64_t deadline) {
+  uint64_t now = now_ns();
+  if (deadline > now && want_eintr(call, n)) {
+    // the signal arrives at some instant strictly inside the wait
+    uint64_t span = deadline - now;
+    uint64_t at = now + span * (1 + choose(ST_EINTR, 7)) / 8;
+    sleep_until(at);
+    return EINTR;
+  }
+  uint64_t late = 0;
+  if (cfg().p[ST_TIMER] > 0 && flip(ST_TIMER, cfg().p[ST_TIMER])) late = 1000ULL * (1 + choose(ST_TIMER, 5000));   // timers fire late, never early
+  sleep_until(deadline + late);
+  return 0;
+}
+int simk_clock_nanosleep(clockid_t, int flags, const struct timespec *req, struct timespec *rem) {
+  int n = sc_enter(SC_NANOSLEEP);
+  if (!cur()) return 0;
+  if (req->tv_nsec < 0 || req->tv_nsec > 999999999L || req->tv_sec < 0) return EINVAL;     // returns the error, errno untouched
+  uint64_t dur = (uint64_t)req->tv_sec * 1000000000ULL + (uint64_t)req->tv_nsec;
+  uint64_t deadline = (flags & TIMER_ABSTIME) ? dur : now_ns() + dur;
+  int r = sleep_interruptible(SC_NANOSLEEP, n, deadline);
+  if (r == EINTR) {
+    uint64_t left = deadline > now_ns() ? deadline - now_ns() : 0;
+    if (rem && !(flags & TIMER_ABSTIME)) { rem->tv_sec = (time_t)(left / 1000000000ULL); rem->tv_nsec = (long)(left % 1000000000ULL); }
+    probe("sleep.interrupted");
+    return EINTR;
+  }
+  return 0;
+}
+int simk_nanosleep(const struct timespec *req, struct timespec *rem) {
+  int r = simk_clock_nanosleep(CLOCK_MONOTONIC, 0, req, rem);
+  if (r) { errno = r; return -1; }
+  return 0;
+}
+
+// ---------------------------------------------------------------- POSIX named semaphores
+sem_t *simk_sem_open(const char *name, int oflag, ...) {
+  int n = sc_enter(SC_SEM_OPEN);
+  Task *t = cur();
+  if (!t) { errno = ENOSYS; return SEM_FAILED; }
+  ipc_enter();
+  mode_t mode = 0; unsigned value = 0;
+  if (oflag & O_CREAT) { va_list ap; va_start(ap, oflag); mode = va_arg(ap, mode_t); value = va_arg(ap, unsigned); va_end(ap); }
+  (void)mode;
+  sem_t *ret = SEM_FAILED;
+  int err = 0;
+  if (want_eintr(SC_SEM_OPEN, n)) err = EINTR;
+  else if ((err = want_fail(SC_SEM_OPEN, n))) {}
+  else if (!name || name[0] != '/' || strlen(name) > 251) err = EINVAL;
+  else {
+    auto it = k->sem_names.find(name);
+    SemObj *o = nullptr;
+    if (it != k->sem_names.end()) {
+      if ((oflag & O_CREAT) && (oflag & O_EXCL)) err = EEXIST;
+      else o = it->second;
+    } else {
+      if (!(oflag & O_CREAT)) err = ENOENT;
+      else if (value > (unsigned)SEM_VALUE_MAX) err = EINVAL;
+      else {
+        o = new SemObj();
+        o->id = (int)k->sem_objs.size(); o->name = name; o->linked = true; o->value = (int)value; o->vc.clear();
+        k->sem_objs.push_back(o);
+        k->sem_names[name] = o;
+        ev("sem_create", o->id, (int64_t)value);
+      }
+    }
+    if (o) {
+      Proc &P = proc_of(t->proc);
+      auto e = P.sems.find(o);
+      if (e == P.sems.end()) {
+        SemRef r; r.handle = (sem_t *)calloc(1, sizeof(sem_t)); r.refs = 1;
+        P.sems[o] = r; o->open_refs++;
+        ret = r.handle;
+      } else { e->second.refs++; ret = e->second.handle; probe("sem.same_process_reopen"); }
+      k->last_sem[t->id] = o->id;
+      ev("sem_open", o->id);
+    }
+  }
+  k->last_sem_name[t->id] = name ? name : "";
+  if (err) { errno = err; ret = SEM_FAILED; ev("sem_open_fail", err); }
+  ipc_exit();
+  return ret;
+}
+static SemObj *sem_of_handle(sem_t *h, Proc **pp = nullptr) {
+  Task *t = cur(); if (!t) return nullptr;
+  Proc &P = proc_of(t->proc);
+  if (pp) *pp = &P;
+  for (auto &e : P.sems) if (e.second.handle == h) return e.first;
+  return nullptr;
+}
+int simk_sem_close(sem_t *h) {
+  sc_enter(SC_SEM_CLOSE);
+  if (!cur()) return 0;
+  ipc_enter();
+  Proc *P; SemObj *o = sem_of_handle(h, &P);
+  int rc = 0;
+  if (!o) { errno = EINVAL; rc = -1; probe("sem.close_invalid"); k->bad_sem_ops++; }
+  else {
+    auto e = P->sems.find(o);
+    if (--e->second.refs == 0) { free(e->second.handle); P->sems.erase(e); o->open_refs--; }
+    ev("sem_close", o->id);
+  }
+  ipc_exit();
+  return rc;
+}
+int simk_sem_unlink(const char *name) {
+  sc_enter(SC_SEM_UNLINK);
+  if (!cur()) return 0;
+  ipc_enter();
+  int rc = 0;
+  auto it = k->sem_names.find(name ? name : "");
+  if (it == k->sem_names.end()) { errno = ENOENT; rc = -1; }
+  else { it->second->linked = false; ev("sem_unlink", it->second->id); k->sem_names.erase(it); }
+  ipc_exit();
+  return rc;
+}
+int simk_sem_wait(sem_t *h) {
+  int n = sc_enter(SC_SEM_WAIT);
+  Task *t = cur(); if (!t) return 0;
+  ipc_enter();
+  SemObj *o = sem_of_handle(h);
+  if (!o) { k->bad_sem_ops++; errno = EINVAL; ipc_exit(); violate("sem_invalid_handle", t->api ? t->api : "", "sem_wait on a semaphore handle that is not open in this process"); }
+  int rc = 0;
+  bool first = true;
+  for (;;) {
+    if (o->value > 0) { o->value--; t->vc.join(o->vc); ev("sem_wait_ok", o->id, o->value); break; }
+    // would block: a handled signal makes the call return EINTR
+    if (want_eintr(SC_SEM_WAIT, first ? n : -1)) { errno = EINTR; rc = -1; probe("eintr.sem_wait"); break; }
+    first = false;
+    probe("sem.wait_blocked");
+    block(B_SEM, o->id);
+    if (t->cancelled) { errno = EINTR; rc = -1; break; }
+  }
+  ipc_exit();
+  return rc;
+}
+int simk_sem_post(sem_t *h) {
+  sc_enter(SC_SEM_POST);
+  Task *t = cur(); if (!t) return 0;
+  ipc_enter();
+  SemObj *o = sem_of_handle(h);
+  if (!o) { k->bad_sem_ops++; errno = EINVAL; ipc_exit(); violate("sem_invalid_handle", t->api ? t->api : "", "sem_post on a semaphore handle that is not open in this process"); }
+  int rc = 0;
+  if (o->value == SEM_VALUE_MAX) { errno = EOVERFLOW; rc = -1; }
+  else {
+    o->value++;
+    o->vc.join(t->vc); hb::tick(t);
+    ev("sem_post", o->id, o->value);
+    for (int i = 0; i < ntasks(); i++) { Task *w = task(i); if (w->state == T_BLOCKED && w->bkind == B_SEM && w->bobj == o->id) wake(w); }
+  }
+  ipc_exit();
+  return rc;
+}
+
+// ---------------------------------------------------------------- POSIX shared memory objects + descriptors + mappings
+int simk_shm_open(const char *name, int oflag, mode_t) {
+  int n = sc_enter(SC_SHM_OPEN);
+  Task *t = cur(); if (!t) { errno = ENOSYS; return -1; }
+  ipc_enter();
+  int err = 0, fd = -1;
+  if (want_eintr(SC_SHM_OPEN, n)) err = EINTR;
+  else if ((err = want_fail(SC_SHM_OPEN, n))) {}
+  else if (!name || name[0] != '/') err = EINVAL;
+  else {
+    auto it = k->shm_names.find(name);
+    ShmObj *o = nullptr;
+    if (it != k->shm_names.end()) {
+      if ((oflag & O_CREAT) && (oflag & O_EXCL)) err = EEXIST; else o = it->second;
+    } else if (!(oflag & O_CREAT)) err = ENOENT;
+    else {
+      o = new ShmObj();
+      o->id = (int)k->shm_objs.size(); o->name = name; o->linked = true; o->size = 0;
+      o->memfd = memfd_create("simshm", 0);
+      if (o->memfd < 0) infra_error("memfd_create failed: %s", strerror(errno));
+      k->shm_objs.push_back(o);
+      k->shm_names[name] = o;
+      ev("shm_create", o->id);
+    }
+    if (o) {
+      FdEnt e; e.kind = FD_SHM; e.shm = o; e.cloexec = true;   // shm_open sets FD_CLOEXEC
+      e.rdonly = (oflag & O_ACCMODE) == O_RDONLY;
+      o->open_fds++;
+      fd = fd_alloc(proc_of(t->proc), e);
+      k->last_shm[t->id] = o->id;
+      ev("shm_open", o->id, fd);
+    }
+  }
+  k->last_shm_name[t->id] = name ? name : "";
+  if (err) { errno = err; fd = -1; ev("shm_open_fail", err); }
+  ipc_exit();
+  return fd;
+}
+int simk_shm_unlink(const char *name) {
+  sc_enter(SC_SHM_UNLINK);
+  if (!cur()) return 0;
+  ipc_enter();
+  int rc = 0;
+  auto it = k->shm_names.find(name ? name : "");
+  if (it == k->shm_names.end()) { errno = ENOENT; rc = -1; }
+  else { it->second->linked = false; ev("shm_unlink", it->second->id); k->shm_names.erase(it); }
+  ipc_exit();
+  return rc;
+}
+int simk_ftruncate(int fd, off_t len) {
+  int n = sc_enter(SC_FTRUNCATE);
+  if (!cur()) return 0;
+  ipc_enter();
+  int rc = 0, err;
+  FdEnt *e = fd_get(fd);
+  if (!e) { errno = EBADF; rc = -1; }
+  else if ((err = want_fail(SC_FTRUNCATE, n))) { errno = err; rc = -1; }
+  else if (e->kind != FD_SHM || e->rdonly) { errno = EINVAL; rc = -1; }
+  else if (len < 0) { errno = EINVAL; rc = -1; }
+  else {
+    if (ftruncate(e->shm->memfd, len) != 0) infra_error("ftruncate(memfd) failed: %s", strerror(errno));
+    e->shm->size = (size_t)len;
+    ev("ftruncate", e->shm->id, (int64_t)len);
+  }
+  ipc_exit();
+  return rc;
+}
+int simk_fstat(int fd, struct stat *st) {
+  int n = sc_enter(SC_FSTAT);
+  if (!cur()) return 0;
+  ipc_enter();
+  int rc = 0, err;
+  FdEnt *e = fd_get(fd);
+  if (!e) { errno = EBADF; rc = -1; }
+  else if ((err = want_fail(SC_FSTAT, n))) { errno = err; rc = -1; }
+  else {
+    memset(st, 0, sizeof *st);
+    st->st_mode = e->kind == FD_SOCK ? S_IFSOCK | 0777 : S_IFREG | 0660;
+    st->st_size = e->kind == FD_SHM ? (off_t)e->shm->size : 0;
+    st->st_nlink = 1;
+  }
+  ipc_exit();
+  return rc;
+}
+void *simk_mmap(void *addr, size_t len, int prot, int flags, int fd, off_t off) {
+  int n = sc_enter(SC_MMAP);
+  Task *t = cur();
+  if (!t) return mmap(addr, len, prot, flags, fd, off);
+  ipc_enter();
+  void *ret = MAP_FAILED;
+  int err = 0;
+  if (len == 0) err = EINVAL;
+  else if ((err = want_fail(SC_MMAP, n))) {}
+  else {
+    size_t pg = 4096, span = (len + pg - 1) / pg * pg;
+    ShmObj *o = nullptr;
+    if (!(flags & MAP_ANONYMOUS)) {
+      FdEnt *e = fd_get(fd);
+      if (!e) err = EBADF;
+      else if (e->kind != FD_SHM) err = ENODEV;
+      else if (e->rdonly && (prot & PROT_WRITE) && (flags & MAP_SHARED)) err = EACCES;
+      else o = e->shm;
+    }
+    if (!err) {
+      // reserve [guard][span][guard] so that a touch outside the mapping really faults
+      char *base = (char *)mmap(nullptr, span + 2 * pg, PROT_NONE, MAP_PRIVATE | MAP_ANONYMOUS | MAP_NORESERVE, -1, 0);
+      if (base == MAP_FAILED) infra_error("host mmap failed");
+      void *p;
+      if (o) p = mmap(base + pg, span, prot, MAP_SHARED | MAP_FIXED, o->memfd, off);
+      else p = mmap(base + pg, span, prot, MAP_PRIVATE | MAP_ANONYMOUS | MAP_FIXED, -1, 0);
+      if (p == MAP_FAILED) infra_error("host mmap (fixed) failed: %s", strerror(errno));
+      Mapping m; m.proc = t->proc; m.addr = (uintptr_t)p; m.len = len; m.shm = o; m.prot = prot; m.reserve_base = (uintptr_t)base; m.reserve_len = span + 2 * pg; m.api = t->api;
+      if (o) o->maps++;
+#ifdef SIM_ASAN
+      // the bytes between the logical end and the end of the last page are outside the segment
+      size_t logical = o ? std::min(len, o->size > (size_t)off ? o->size - (size_t)off : 0) : len;
+      if (logical < span) __asan_poison_memory_region((char *)p + logical, span - logical);
+#endif
+      k->maps.push_back(m);
+      ret = p;
+      ev("mmap", o ? o->id : -1, (int64_t)len);
+    }
+  }
+  if (err) { errno = err; ev("mmap_fail", err); }
+  ipc_exit();
+  return ret;
+}
+int simk_munmap(void *addr, size_t len) {
+  sc_enter(SC_MUNMAP);
+  Task *t = cur();
+  if (!t) return munmap(addr, len);
+  ipc_enter();
+  int rc = 0;
+  bool found = false;
+  for (auto it = k->maps.begin(); it != k->maps.end(); ++it) {
+    if (it->proc != t->proc || it->addr != (uintptr_t)addr) continue;
+    found = true;
+    size_t pg = 4096;
+    size_t span_req = (len + pg - 1) / pg * pg, span_map = (it->len + pg - 1) / pg * pg;
+    if (len == 0) { errno = EINVAL; rc = -1; break; }
+    if (span_req >= span_map) {
+      release_mapping(*it);
+      k->maps.erase(it);
+      ev("munmap", (int64_t)len, 1);
+    } else {
+      // partial unmap: the rest of the mapping stays (residue visible in the VM table)
+      munmap(addr, span_req);
+      it->addr += span_req; it->len -= span_req;
+      probe("vm.partial_munmap");
+      ev("munmap", (int64_t)len, 0);
+    }
+    break;
+  }
+  if (!found) {
+    if ((uintptr_t)addr % 4096) { errno = EINVAL; rc = -1; }
+    else { k->stray_munmaps++; probe("vm.munmap_unknown_range"); }    // Linux: unmapping nothing is not an error
+  }
+  ipc_exit();
+  return rc;
+}
+int simk_close(int fd) {
+  sc_enter(SC_CLOSE);
+  Task *t = cur();
+  if (!t) return close(fd);
+  ipc_enter();
+  int rc = 0;
+  Proc &P = proc_of(t->proc);
+  auto it = P.fds.find(fd);
+  if (it == P.fds.end()) { errno = EBADF; rc = -1; k->bad_closes++; probe("fd.bad_close"); ev("close_bad", fd); }
+  else { fd_release(it->second); P.fds.erase(it); k->closes++; ev("close", fd); }
+  ipc_exit();
+  return rc;
+}
+
+}  // extern "C"
